@@ -70,6 +70,19 @@ class Form:
 
 
 @dataclass
+class Absent:
+    """No node selected by TARGET exists in FN (a construct that would skip
+    required work, e.g. a `break` in a loop that must visit every edge)."""
+
+    props: tuple[str, ...]
+    fn: str
+    kind: str
+    target: str
+    why: str
+    rule: str = "RG-absent"
+
+
+@dataclass
 class Val:
     """The expression selected by TARGET equals EXPECT after normalisation
     (linear arithmetic in normal form, calls canonicalised argument-wise):
@@ -162,8 +175,16 @@ def _run_one(prog: Program, report: Report, g) -> int:
         if isinstance(g, Must):
             _must(report, v, g)
             return 1
+        if isinstance(g, Absent):
+            hits = find_targets(v, g.kind, g.target)
+            if hits:
+                for t in hits:
+                    report.violate(g.rule, v.fn, t, f"{g.why.split(';')[0]}: {one_line(t)[:80]}", g.why, what=f"no /{g.target}/ in {v.fn.qual}")
+            else:
+                report.ob(g.rule, g.fn, f"{g.why.split(';')[0]}: no /{g.target}/")
+            return 1
         targets = find_targets(v, g.kind, g.target, arms_fallback=isinstance(g, Gate))
-        if len(targets) < g.min:
+        if len(targets) < g.min and not (g.min == 0):
             raise AnalysisError(f"{g.rule}: {g.fn}: target /{g.target}/ found {len(targets)} time(s), expected at least {g.min} (table needs maintenance)")
         if isinstance(g, Gate):
             if g.max is not None and len(targets) > g.max:
